@@ -988,7 +988,7 @@ func runL5(args []string) {
 		"quiescence at every gc, a directed eviction opening in a quarter of them) compared exactly with the model's log segments, cache content and prepares per operation; plus concurrent runs " +
 		"(256 Statements prepared and some fifty DBs created at once, half of those DBs dropped while the others run again, two DB values over one sql.DB, 2-6 goroutines, 4 pooled connections, statements with outputs / without / a bulk insert with explicit members, " +
 		"open iterators, transactions running several shapes and overlapping on one cached statement, Query objects of a transaction run twice and after its end, a transaction's connection lost, contexts ending as Prepare returns, eviction stress, " +
-		"GC at random points) checked by invariants; non-trivial = at least one eviction or finalizer-driven close; distinct by hash of the history"
+		"GC at random points) checked by invariants; 36 directed cases of two retrievals from one Statement overlapping inside the scan of a single row (each must end with the rows served to its own query); non-trivial = at least one eviction or finalizer-driven close; distinct by hash of the history"
 	r := rng.New(*seed)
 	dist := map[string]int{}
 
@@ -1051,6 +1051,22 @@ func runL5(args []string) {
 		}
 		process(h)
 	} else {
+		// directed: two retrievals of one Statement overlapping inside a single row's scan
+		for _, oc := range ovCases() {
+			var why string
+			key := fmt.Sprintf("overlap%+v", oc)
+			if withWatchdog(40*time.Second, func() { why = runOverlap(oc) }) {
+				rep.countCase(key, true)
+				rep.addCrash(Finding{Case: map[string]any{"overlap": oc}, Kind: "crash", Detail: "the overlapping retrievals did not finish within 40 s"})
+				continue
+			}
+			rep.countCase(key, true)
+			dist["overlapping-retrievals"]++
+			if why != "" {
+				rep.addHolds("C16", Finding{Case: map[string]any{"overlap": oc}, Kind: "holds",
+					Detail: "a retrieval depends on another retrieval running on the same Statement at the same time: " + why})
+			}
+		}
 		for i := 0; i < *n && hangCount < maxHangs; i++ {
 			process(genL5(r.Fork()))
 		}
